@@ -43,7 +43,11 @@ def square(pairs):
 
 def terms(tier, max_dim=36):
     L = AB.with_shapes(leaves(tier))
-    l1 = square(AB.grow([L], unary=UN, binary=BI, ternary=TE, ternary_pool=L[:3] + L[12:13] + L[15:16] + L[23:24], max_dim=max_dim))
+    un, bi = UN, BI
+    if tier == "quick":
+        un = {"T": UN["T"], "H": UN["H"], "lmul": lambda a: [["lmul", "m3", a]]}
+        bi = {"matmul": BI["matmul"], "kron": BI["kron"], "BlockDiag": lambda a, b: [["BlockDiag", [a, b], [2, 1]]]}
+    l1 = square(AB.grow([L], unary=un, binary=bi, ternary=TE, ternary_pool=L[:3] + L[12:13] + L[15:16] + L[23:24], max_dim=max_dim))
     out = L + l1
     info = {"leaves": len(L), "depth1": len(l1)}
     if tier == "thorough":
